@@ -188,12 +188,18 @@ Proof.
 Qed.
 
 (* ---- chunks of a paragraph of printable characters ---- *)
+Lemma chunks_head : forall t rest, chunks t <> [] :: rest.
+Proof.
+  intros [|c t] rest; [discriminate|]. cbn [chunks].
+  destruct (chunks t) as [|[|d ch] r]; try discriminate. destruct (Bool.eqb (is_sp c) (is_sp d)); discriminate.
+Qed.
+
 Lemma chunks_concat : forall t, concat (chunks t) = t.
 Proof.
   induction t as [|c t IH]; [reflexivity|]. cbn [chunks].
   destruct (chunks t) as [|[|d ch] rest] eqn:E.
   - simpl in IH. subst t. reflexivity.
-  - simpl in *. subst t. reflexivity.
+  - exfalso. exact (chunks_head _ _ E).
   - destruct (Bool.eqb (is_sp c) (is_sp d)); simpl in *; rewrite <- IH; reflexivity.
 Qed.
 
@@ -216,8 +222,8 @@ Proof.
       split.
       * destruct A as (K & Adj & Ar). split; [|split; [|exact Ar]].
         -- split; [discriminate|]. destruct (kind_blank _ K) as [(B1 & W1)|(B1 & W1)].
-           ++ left. cbn [forallb]. rewrite W1, Ecd, <- Bd, B1. reflexivity.
-           ++ right. cbn [forallb]. rewrite W1. unfold nows at 1. rewrite Ecd, <- Bd, B1. reflexivity.
+           ++ left. change (blank (c :: d :: ch) = true). rewrite Bnew, Ecd, <- Bd. exact B1.
+           ++ right. change (nows c && forallb nows (d :: ch) = true). rewrite W1. unfold nows. rewrite Ecd, <- Bd, B1. reflexivity.
         -- destruct rest as [|b rest']; [exact I|]. rewrite Bnew, Ecd, <- Bd. exact Adj.
       * intros d' ch' rest' H. inversion H; subst. split; [exact Bnew | exact Pc].
     + apply eqb_false_iff in Eq. split.
@@ -271,13 +277,14 @@ Theorem wrap_words : forall text width ii si,
 Proof.
   intros text width ii si HP Hi Hs. unfold wrap_list, wrap.
   assert (E : flat_map words (wrap_lines text width) = words text).
-  { unfold splitlines in HP. rewrite <- (splitlines_words text []). simpl rev. unfold wrap_lines, splitlines.
-    induction (splitlines_aux [] text) as [|p ps IH]; [reflexivity|].
-    inversion HP; subst. cbn [flat_map]. rewrite flat_map_app, IH by assumption. f_equal.
-    destruct p as [|x p']; [reflexivity|]. apply tw_wrap_words. assumption. }
+  { transitivity (flat_map words (splitlines text)).
+    - unfold wrap_lines. revert HP. generalize (splitlines text). intros l. induction l as [|p ps IH]; intros HP; [reflexivity|].
+      inversion HP; subst. cbn [flat_map]. rewrite flat_map_app. f_equal; [|apply IH; assumption].
+      destruct p as [|x p']; [reflexivity|]. apply tw_wrap_words. assumption.
+    - unfold splitlines. rewrite splitlines_words. reflexivity. }
   destruct (wrap_lines text width) as [|f r].
   - simpl. rewrite app_nil_r. rewrite <- E. simpl. apply words_blank.
     unfold all_spaces in Hi. rewrite forallb_forall in *. intros x Hx. apply sp_ws. apply Hi. exact Hx.
   - cbn [flat_map] in *. rewrite words_indent by exact Hi. rewrite <- E. f_equal.
-    induction r as [|l r IH]; [reflexivity|]. cbn [map flat_map]. rewrite words_indent by exact Hs. f_equal. apply IH.
+    clear E. induction r as [|l r IH]; [reflexivity|]. cbn [map flat_map]. rewrite words_indent by exact Hs. f_equal. apply IH.
 Qed.
